@@ -188,6 +188,16 @@ def finish(prop, tier, seed, level, records, stats, summary, t0, assumptions=Non
     }
     cov.update(jsonable(summary.get("extra") or {}))
     inconclusive = summary.get("inconclusive")
+    struct = {}
+    for r in records:
+        for k, v in (r.get("cnt") or {}).items():
+            if k.startswith("STRUCT."):
+                struct[k[7:]] = struct.get(k[7:], 0) + v
+    cov["seam_structure_mismatches"] = struct
+    if struct and not inconclusive:
+        notes = next((r.get("struct_notes") for r in records if r.get("struct_notes")), None)
+        inconclusive = ("the code is structured differently from what the instrumentation assumes (a seam was not observed where expected); "
+                        "no verdict on the affected oracles: " + json.dumps(struct) + " e.g. " + json.dumps(notes)[:300])
     if not inconclusive:
         if stats["worker_errors"]:
             inconclusive = f"{len(stats['worker_errors'])} worker(s) died or lost cases"
